@@ -233,20 +233,21 @@ theorem versionTok_ok (ts) : (versionTok ts).Ok ts := by
     · exact ok_nil x
   · exact errorTok_ok _ ts
 
-/-- relations.rs:205-245 -/
+/-- relations.rs:205-247 (after fix 23e6f67: `skip_ws()` before the closing `)`) -/
 def versionPart (ts : List Tok) : PR :=
   if peekPastWs ts = some .L_PARENS then
     (skipWs ts).andThen fun ts =>
       ((bump1 ts).andThen fun ts => (skipWs ts).andThen fun ts =>
         ((constraintLoop ts).wrap .CONSTRAINT).andThen fun ts => (skipWs ts).andThen fun ts =>
-        (versionTok ts).andThen (expect .R_PARENS "Expected ')'")).wrap .VERSION
+        (versionTok ts).andThen fun ts => (skipWs ts).andThen (expect .R_PARENS "Expected ')'")).wrap .VERSION
   else PR.nil ts
 
 theorem versionPart_ok (ts) : (versionPart ts).Ok ts := by
   unfold versionPart; split
   · exact ok_andThen (skipWs_ok _) fun _ => ok_wrap _ (ok_andThen (bump1_ok _) fun _ =>
       ok_andThen (skipWs_ok _) fun _ => ok_andThen (ok_wrap _ (constraintLoop_ok _)) fun _ =>
-      ok_andThen (skipWs_ok _) fun _ => ok_andThen (versionTok_ok _) (expect_ok _ _))
+      ok_andThen (skipWs_ok _) fun _ => ok_andThen (versionTok_ok _) fun _ =>
+      ok_andThen (skipWs_ok _) (expect_ok _ _))
   · exact ok_nil ts
 
 def archMsg : String := "Expected architecture name or '!' or ']'"
